@@ -190,11 +190,21 @@ class _ForthMachine(object):
     def step_code(self):
         return ERROR_NAMES[self._c("forth_step").i]
 
+    def step_n(self, n):
+        """up to n single steps, stopping at the first error or when done -> (error name, steps taken)"""
+        r = self._c("forth_step_n", (n,))
+        return ERROR_NAMES[r.i], r.h2
+
     def resume_code(self):
         return ERROR_NAMES[self._c("forth_resume").i]
 
     def run_code(self, inputs=None):
         return ERROR_NAMES[self._c("forth_run", (), _pairs(inputs)).i]
+
+    def run_code_py(self, inputs=None):
+        """run as the Python binding does it: begin(inputs) then resume()"""
+        self._c("forth_begin", (), _pairs(inputs))
+        return ERROR_NAMES[self._c("forth_resume").i]
 
     def call_code(self, name):
         return ERROR_NAMES[self._c("forth_call", (), (name,)).i]
